@@ -21,7 +21,8 @@ class Ob:
     """one obligation: a harness function explored over all paths within its stated bound"""
 
     def __init__(self, name, fn, bound, params=None, expect=(), rlimit=30_000_000, max_paths=200000,
-                 max_decisions=600, deadline_s=600, max_violations=1, weight=1):
+                 max_decisions=600, deadline_s=600, max_violations=1, weight=1, cap=None):
+        self.cap = cap
         self.name = name
         self.fn = fn
         self.bound = bound
@@ -74,7 +75,7 @@ def _worker(args):
         ob = obs[obname]
         known = {k["class"]: k for k in known_active if k.get("obligation") in (obname, None) or obname.startswith(k.get("obligation", "\0"))}
         ex = core.Explorer(rlimit=ob.rlimit, max_paths=ob.max_paths, max_decisions=ob.max_decisions,
-                           deadline_s=ob.deadline_s, max_violations=ob.max_violations, known=known, seed=seed)
+                           deadline_s=ob.deadline_s, max_violations=ob.max_violations, known=known, seed=seed, cap=ob.cap)
         params = ob.params
 
         count = [0]
@@ -92,6 +93,13 @@ def _worker(args):
         _FUNCS.clear()
         ex.run(fn)
         st = ex.stats.as_dict()
+        cand_tries = 0
+        if ex.stats.inconclusive and not ex.violations:
+            # undecided by the solver: try to refute with concrete candidates (a hit is replayed like any counterexample)
+            v, cand_tries = core.refute_by_candidates(lambda c: ob.fn(c, **params), seed + 1, budget_s=min(30.0, ob.deadline_s / 4))
+            if v is not None:
+                ex.violations.append(v)
+        st["candidate_tries"] = cand_tries
         out.update(ok=True, stats=st, bound=ob.bound,
                    violations=[dict(label=v.label, inputs=v.inputs, note=v.note) for v in ex.violations],
                    passing=ex.passing_samples, unknown_samples=ex.unknown_samples,
